@@ -6,7 +6,7 @@ import os
 
 rows = []
 ndet = 0
-for f in sorted(glob.glob("/verif/seeded/*/meta.json")):
+for f in sorted(glob.glob("/verif/seeded/C*/meta.json")):
     m = json.load(open(f))
     d = os.path.basename(os.path.dirname(f))
     notes = (m.get("needs_to_manifest") or "").strip().splitlines()
@@ -21,8 +21,20 @@ out = ["# Seeded changes", "",
        "scratch worktree; each was confirmed in a scratch worktree (existing tests pass with it, demo fails with it, demo passes " +
        "without it) and then the listed checks were run against that worktree (`VERIF_REPO=<worktree> bin/check <id> quick`).", "",
        "| seed | property | change | existing tests with the change | detected by (quick) |", "|---|---|---|---|---|"] + rows
+ben = []
+for f in sorted(glob.glob("/verif/seeded/benign-*/meta.json")):
+    m = json.load(open(f))
+    d = os.path.basename(os.path.dirname(f))
+    note = open(os.path.join(os.path.dirname(f), "notes.md")).read().strip().splitlines() if os.path.exists(os.path.join(os.path.dirname(f), "notes.md")) else [""]
+    first = next((l.strip("# -").strip() for l in note if l.strip()), "")
+    ben.append(f"| {d} | {first[:140]} | {', '.join(m['checks'])} | {', '.join(m['false_alarms']) or 'none'} |")
 n = len(rows)
 k = ndet
 out += ["", f"{k} of {n} confirmed seeded changes are detected by the quick check of their own property (plus any other listed check)."]
+out += ["", "## Behaviour-preserving changes (false-alarm test)", "",
+        "Twelve refactorings / internal redesigns that keep every public result identical (produced by a sub-agent that saw only "
+        "the library; each confirmed bit-identical on 14 433 probe observations). The quick checks of the properties anchored in "
+        "the touched files were run against each (`tools/benigneval.py`): every check must exit 0.", "",
+        "| change | what | checks run | false alarms |", "|---|---|---|---|"] + ben
 open("/verif/SEEDED.md", "w").write("\n".join(out) + "\n")
 print(f"{k}/{n} detected")
